@@ -706,6 +706,21 @@ fn convert_qualified_var(
         }
     }
 
+    // A re-export (`pub use`) gives the alias a public name, but it must not open up a member
+    // that is private to another module: the definition the alias leads to is checked as well.
+    if lookup_name != resolved_name
+        && let Some(&is_public) = ctx.module_info.visibility_map.get(&lookup_name)
+    {
+        let target_path = extract_path_from_mangled(lookup_name);
+        if !is_public && target_path.len() > 1 && !ctx.is_within_module_hierarchy(&target_path) {
+            ctx.errors.push(Error::PrivateMemberAccess {
+                module_path: target_path[..target_path.len() - 1].to_vec(),
+                member: *target_path.last().unwrap(),
+                location: loc.clone(),
+            });
+        }
+    }
+
     Expr::Var(lookup_name).into_id(loc)
 }
 
